@@ -983,7 +983,16 @@ func c13DiskJoin(c *Ctx) {
 	}
 	sf := p.SSAFunc(walk.Obj)
 	okW, seenW := true, 0
+	// Walk, its literals, and the bucket's own methods they call (the construction moved into a method)
+	walkFns := allSSAFuncs(sf)
 	for _, f := range allSSAFuncs(sf) {
+		for _, call := range callsIn(f) {
+			if h := call.Call.StaticCallee(); h != nil && h.Pkg == sf.Pkg && h != sf && len(h.Blocks) > 0 && h.Signature.Recv() != nil {
+				walkFns = append(walkFns, allSSAFuncs(h)...)
+			}
+		}
+	}
+	for _, f := range walkFns {
 		for _, call := range callsIn(f) {
 			callee := staticCalleeObj(call.Call)
 			if callee == nil || !calleeIs(callee, "private/pkg/storage/storageutil", "NewObjectInfo") {
